@@ -142,8 +142,12 @@ class ExtCommunity(Attribute):
                 ext_community.append(
                     '%s:%s' % (bgp_cons.BGP_EXT_COM_STR_DICT[comm_code], struct.unpack('!I', value_tmp[2:])[0]))
             elif comm_code == bgp_cons.BGP_EXT_COM_COLOR:
-                ext_community.append('%s:%s' % (bgp_cons.BGP_EXT_COM_STR_DICT[comm_code],
-                                                struct.unpack('!I', value_tmp[2:])[0]))
+                # the two leftmost bits of the flags field are the Color-Only bits
+                co_bits = struct.unpack('!H', value_tmp[:2])[0] & 0xc000
+                color_name = bgp_cons.BGP_EXT_COM_STR_DICT[comm_code]
+                if co_bits:
+                    color_name = bgp_cons.BGP_EXT_COM_STR_DICT[(comm_code << 16) | co_bits]
+                ext_community.append('%s:%s' % (color_name, struct.unpack('!I', value_tmp[2:])[0]))
             # EVPN
             elif comm_code == bgp_cons.BGP_EXT_COM_EVPN_ES_IMPORT:
                 mac = str(netaddr.EUI(int(binascii.b2a_hex(value_tmp), 16)))
